@@ -1186,6 +1186,8 @@ class TE:
             return self.inline(f, args, kw, mod, e)
         if isinstance(f, Record) and f.ctor == TypeRef("builtins.lambda"):
             return self.call_lambda(f, args, kw)
+        if isinstance(f, Record) and isinstance(f.ctor, TypeRef) and f.ctor.name == "functools.partial" and f.args:
+            return self.call(f.args[0], list(f.args[1:]) + list(args), {**f.kwargs, **kw}, mod, e)  # a pre-bound constructor
         if isinstance(f, TypeRef) and f.name in _LIB_FUNCS and not kw:
             return self.lib_call(f.name, args, mod, e)
         if isinstance(f, ClassRef) and f.is_enum and len(args) == 1 and not kw and (isinstance(args[0], int) or isinstance(args[0], Member)):
